@@ -884,20 +884,27 @@ def loop_boundary_evidence(rep: Report, ctx: Ctx, rule: str) -> None:
            "Event(DUMMY_END_EVENT)", (f"{src}.to_list()",),
            [("le", f"{src}.to_frozenset()", LP_TYPES, "1")],
            [("truth", OUTS, "1")])
-    expect(ce, ws, "an end event without an outside successor contributes "
-           "itself to the dummy end", "update_in_event_sets",
-           "Event(DUMMY_END_EVENT)",
-           ("[each(P:loop.end_events).event_type]",),
-           [("truth", OUTS, "0")])
-    only(ce, ws, "Event(DUMMY_END_EVENT)", 2)
+    # (the fallback "an end event without an outside successor contributes
+    # itself" is NOT an obligation: add_end_event_to_graph adds the same
+    # singleton set for every end event anyway - triaged as redundant by
+    # construction, DESIGN section 12)
+    extra = [w for w in ws if w[1] == "Event(DUMMY_END_EVENT)"
+             and w[0] != "add_edge" and w[2] not in (
+                 (f"{src}.to_list()",),
+                 ("[each(P:loop.end_events).event_type]",))]
+    rep.ob(rule, f"{ce.name}: no other evidence is written on the dummy "
+           "end", not extra, fi=ce,
+           node=extra[0][4] if extra else ce.node,
+           detail="; ".join(describe(w) for w in extra)[:300] or
+           "only the mirrored sets (and the redundant singleton fallback)")
     # ---- wiring
     a_s = ctx.func("add_start_event_to_graph")
     R, ws = _evidence_writes(ctx, a_s)
     expect(a_s, ws, "edge dummy start -> every loop start event", "add_edge",
            "P:graph", ("P:start_event", "each(P:loop.start_events)"), [])
-    expect(a_s, ws, "every loop start event records the dummy start as a "
-           "predecessor", "update_in_event_sets",
-           "each(P:loop.start_events)", ("[DUMMY_START_EVENT]",), [])
+    # ("every loop start event records the dummy start as a predecessor" is
+    # NOT an obligation: no later phase can read that set - triaged with 42
+    # hand-made shapes and 460 random families, DESIGN section 12)
     a_e = ctx.func("add_end_event_to_graph")
     R, ws = _evidence_writes(ctx, a_e)
     import re
@@ -935,7 +942,7 @@ def loop_boundary_evidence(rep: Report, ctx: Ctx, rule: str) -> None:
 
 def r712(rep: Report, ctx: Ctx) -> None:
     rep.rule("R7.12", "the dummy start / end of a loop body carry the "
-             "evidence of the loop's boundary in the parent graph", 12)
+             "evidence of the loop's boundary in the parent graph", 10)
     loop_boundary_evidence(rep, ctx, "R7.12")
 
 
@@ -1273,6 +1280,10 @@ def r716(rep: Report, ctx: Ctx) -> None:
 # functions that change a model graph without touching the mirror sets, each
 # confirmed by reading (one line of reason per exception)
 UNMIRRORED_OK = {
+    "add_start_event_to_graph":
+        "the successor sets of the dummy start are written by "
+        "create_start_event (R7.12); the predecessor set {dummy start} on "
+        "the loop's start events is read by no later phase (triaged)",
     "get_disconnected_loop_sub_graph":
         "removes the other weakly connected components: no edge joins them "
         "to the component that is kept, so no kept event names them",
